@@ -52,7 +52,8 @@ impl Monitor for C01 {
             // R1 along every intermediate reserve pair reported by the swap events
             let mut seq: Vec<(u128, u128)> = vec![(a.q, a.b)];
             for s in swaps.iter().filter(|s| s.vamm == i) {
-                seq.push((s.q_after, s.b_after));
+                let last = *seq.last().unwrap();
+                seq.push(s.after(last.0, last.1));
             }
             seq.push((b.q, b.b));
             for pair in seq.windows(2) {
@@ -103,7 +104,8 @@ impl Monitor for C01 {
             let mut b0 = a.b;
             for s in swaps.iter().filter(|s| s.vamm == i) {
                 let k = kfloor(q0, b0, d);
-                let other_after = if s.input { s.q_after } else { s.b_after };
+                let (qa, ba) = s.after(q0, b0);
+                let other_after = if s.input { qa } else { ba };
                 let rem = if other_after == 0 {
                     false
                 } else {
@@ -124,8 +126,8 @@ impl Monitor for C01 {
                     r.count("swaps-with-remainder");
                 }
                 r.count("swap-legs");
-                q0 = s.q_after;
-                b0 = s.b_after;
+                q0 = qa;
+                b0 = ba;
             }
             if st.out.ok && !swaps.is_empty() {
                 r.sample_once(
@@ -185,6 +187,15 @@ impl Monitor for C02 {
             return;
         }
         let path = reply_path(w, &st.out);
+        if st.out.ok {
+            let named = reply_path_from_events(w, &st.out);
+            if named != path {
+                r.count("path-label-differs-from-event-names");
+                r.sample_once("path-label-differs", json!({"op": short_op(&st.op), "effects": path, "event_names": named}));
+            } else {
+                r.count("path-label-agrees-with-event-names");
+            }
+        }
         let side = match &st.op {
             Op::Engine { msg: eng::ExecuteMsg::OpenPosition { side, .. }, .. } => {
                 if *side == eng::Side::Buy {
